@@ -4,7 +4,7 @@ WRS = [FP + x for x in ('10horizontalEdPKdS2_b', '8verticalENS_5ArrayIdEEPKdS4_b
     '3arcEdddddPKdS2_', '4turnEddPKdS2_', '16quadratic_smoothENS_4Vec2EPKdS3_b', '6bezierENS_5ArrayINS_4Vec2EEEPKdS5_b', '9quadraticENS_5ArrayINS_4Vec2EEEPKdS5_b',
     '12cubic_smoothENS_5ArrayINS_4Vec2EEEPKdS5_b', '10horizontalENS_5ArrayIdEEPKdS4_b')]
 OBLIGATIONS = [
-    Ob('width_offset_bookkeeping', 'C07/bookkeeping.c', WRS, ir='ni', real=False, validate=True,
+    Ob('width_offset_bookkeeping', 'C07/bookkeeping.c', WRS, ir='ni', validate=True,
        callrename={'_ZN5gdstk8FlexPath*': {'_ZN5gdstk5Curve*': 'curve_stub'}},
        what='one construction call (12 wrappers) from an arbitrary consistent 2-element path: afterwards every element has exactly one width/offset entry per spine point; the last entry is the requested (width/2, offset) or the previous one',
        bound='2 elements, 1 or 2 prior spine points, the curve method appends K in 0..3 points (contract), width/offset given or not',
